@@ -175,3 +175,89 @@ package db
 //@ func (*LocalDB).Commit [C08]
 //@   opt safety=assumed panics=allowed
 //@   ensures result == nil && !l.intx && l.txcache == nil
+
+// ---- C07: one page of a listing, against an abstract ordered iterator -------------------------------------
+// An iterator is viewed as a fixed sequence itkeys[0..itn), itvals[0..itn) (the in-range entries in
+// iteration order) and a position itpos; it is valid iff 0 <= itpos < itn. (That the back ends produce
+// this sequence - in-prefix keys, strictly ordered - is C06's territory and assumed here.)
+//@ ghost *.itkeys (Array Int Bytes)
+//@ ghost *.itvals (Array Int Bytes)
+//@ ghost *.itn Int
+//@ ghost *.itpos Int
+//@ trusted func (IteratorDB).Iterator
+//@   frame allocates
+//@   ensures result != nil && result.itn >= 0
+//@ trusted func (IteratorSeeker).Rewind
+//@   frame recv.itpos
+//@   ensures recv.itpos == 0
+//@ trusted func (IteratorSeeker).Next
+//@   frame recv.itpos
+//@   ensures recv.itpos == old(recv.itpos) + 1
+//@ trusted func (IteratorSeeker).Seek
+//@   frame recv.itpos
+//@   ensures 0 <= recv.itpos && recv.itpos <= recv.itn
+//@ trusted func (Iterator).Valid
+//@   frame nothing
+//@   ensures result == (0 <= recv.itpos && recv.itpos < recv.itn)
+//@ trusted func (Iterator).Key
+//@   frame nothing
+//@   ensures bytes(result) == recv.itkeys[recv.itpos]
+//@ trusted func (Iterator).Value
+//@   frame nothing
+//@   ensures bytes(result) == recv.itvals[recv.itpos]
+//@ pure func (Iterator).Error
+//@ pure func (Iterator).Close
+//@ pure func github.com/33cn/chain33/types.Encode
+
+//@ func isdeleted [C07]
+//@   frame nothing
+//@   ensures result == (len(d) == 0)
+
+//@ func cloneByte [C07]
+//@   opt overflow=assumed
+//@   frame allocates
+//@   ensures bytes(result) == old(bytes(v)) && len(result) == len(v)
+
+// collect appends exactly one item made from the entry under the iterator: the key, the encoded pair or
+// the value, as the direction flags say; what was collected before stays
+//@ func (*collector).collect [C07]
+//@   opt safety=assumed overflow=assumed
+//@   requires c != nil
+//@   frame allocates, collector.results, mem:[]uint8
+//@   ensures len(c.results) == old(len(c.results)) + 1
+//@   ensures forall j :: 0 <= j && j < old(len(c.results)) ==> c.results[j] == old(c.results[j])
+//@   ensures c.direction == old(c.direction)
+//@   ensures (c.direction / 8) % 2 == 1 ==> bytes(c.results[old(len(c.results))]) == it.itkeys[it.itpos]
+//@   ensures (c.direction / 8) % 2 == 0 && (c.direction / 4) % 2 == 0 ==> bytes(c.results[old(len(c.results))]) == it.itvals[it.itpos]
+
+// liveCount(vals, k): number of live (non-empty value) entries among positions 0..k-1
+//@ smt (declare-fun liveCount ((Array Int Bytes) Int) Int)
+//@ smt (assert (forall ((v (Array Int Bytes))) (! (= (liveCount v 0) 0) :pattern ((liveCount v 0)))))
+//@ smt (assert (forall ((v (Array Int Bytes)) (k Int)) (! (=> (>= k 0) (= (liveCount v (+ k 1)) (+ (liveCount v k) (ite (= (blen (select v k)) 0) 0 1)))) :pattern ((liveCount v (+ k 1))))))
+//@ smt (assert (forall ((v (Array Int Bytes)) (k Int)) (! (=> (>= k 0) (>= (liveCount v k) 0)) :pattern ((liveCount v k)))))
+
+//@ trusted func newCollector
+//@   frame allocates
+//@   ensures result != nil && fresh(result) && len(result.results) == 0 && result.direction == direction
+//@ pure func (*collector).result
+
+// the prefix count is the number of live entries of the prefix scan
+//@ func (*ListHelper).PrefixCount [C07]
+//@   opt safety=assumed overflow=assumed
+//@   assert@call IteratorDB).Iterator: arg1 == prefix && isnil(arg2)
+//@   ensures !called(Error) || ret(Error) == nil ==> result == liveCount(ret(Iterator).itvals, ret(Iterator).itn)
+//@   loop 0 invariant called(Error) ==> ret(Error) == nil
+//@   loop 0 invariant 0 <= it.itpos && it.itpos <= it.itn && count == liveCount(it.itvals, it.itpos)
+//@   loop 0 invariant it.itn == atentry(it.itn) && it.itvals == atentry(it.itvals) && it == ret(Iterator)
+
+// a page from one end: positions are visited one by one from the first; exactly the live ones are
+// collected (never a tombstone, never the same position twice, none skipped), until count items
+//@ func (*ListHelper).iteratorScan [C07]
+//@   opt safety=assumed overflow=assumed
+//@   assert@call IteratorDB).Iterator: arg1 == prefix && isnil(arg2) && arg3 == reverse
+//@   assert@call collector).collect: arg1 == it && 0 <= it.itpos && it.itpos < it.itn && blen(it.itvals[it.itpos]) != 0
+//@   ensures called(result) ==> len(results.results) == liveCount(it.itvals, it.itpos + 1) || (it.itpos >= it.itn && len(results.results) == liveCount(it.itvals, it.itn))
+//@   ensures called(result) && count > 0 ==> len(results.results) <= count
+//@   loop 0 invariant 0 <= it.itpos && it.itpos <= it.itn && i == len(results.results) && i == liveCount(it.itvals, it.itpos) && i >= 0
+//@   loop 0 invariant count > 0 ==> i < count || i == 0
+//@   loop 0 invariant it.itn == atentry(it.itn) && it.itvals == atentry(it.itvals) && results.direction == direction
